@@ -37,6 +37,7 @@ class Registry(object):
     def __init__(self, d):
         self.log = []
         self.ret = None
+        self.generation = {}
         for name in NAMES:
             if name == "a.b.c":
                 continue
@@ -48,11 +49,26 @@ class Registry(object):
         holder.a = inst
         d.register_instance(holder)
 
-    def make(self, name):
+    def make(self, name, generation=0):
         def fn(*a, **k):
-            self.log.append((name, list(a), dict(k)))
-            return self.ret
+            current = self.generation.get(name, 0)
+            self.log.append((name if generation == current else "STALE-REGISTRATION:%s" % name, list(a), dict(k)))
+            return self.ret if generation == current else "stale-result"
         return fn
+
+    def reregister(self, d, name):
+        """Registers a fresh callable under a name that is already registered (the newest registration must be the one called)."""
+        g = self.generation.get(name, 0) + 1
+        self.generation[name] = g
+        if name == "a.b.c":
+            inst = Nested()
+            inst.b = Nested()
+            inst.b.c = self.make("a.b.c", g)
+            holder = Nested()
+            holder.a = inst
+            d.register_instance(holder)
+        else:
+            d.register_function(self.make(name, g), name)
 
 
 def build_args(style, v, w):
@@ -155,9 +171,12 @@ def leg_loop(part, tier, shard, nshards):
 # -- sessions: several calls on one proxy (state carried from one call to the next) ------------------------
 
 
+SESSION_STEPS = [("f", "pos1"), ("ns.f", "kw2"), ("a.b.c", "pos2"), ("BATCH", ""), ("NOTIFY", "pos1"), ("REREG", "f"), ("REREG", "a.b.c"), ("REREG", "ns.f")]
+
+
 def session_cases(tier):
     leaves = gen.SMALL_LEAVES + [2 ** 53, -0.0, "\U0001F600", [1, [2]], {"k": {"a": None}}]
-    steps = [("f", "pos1"), ("ns.f", "kw2"), ("a.b.c", "pos2"), ("名前", "none"), ("BATCH", ""), ("NOTIFY", "pos1"), ("with space", "kw1")]
+    steps = SESSION_STEPS
     L = 4 if tier == "thorough" else 3
     for seq in itertools.product(range(len(steps)), repeat=L):
         for vi in (0, 5, 11):
@@ -168,9 +187,11 @@ def session_cases(tier):
 def check_session(case):
     seq, vi, (cv, sv) = case
     leaves = gen.SMALL_LEAVES + [2 ** 53, -0.0, "\U0001F600", [1, [2]], {"k": {"a": None}}]
-    steps = [("f", "pos1"), ("ns.f", "kw2"), ("a.b.c", "pos2"), ("名前", "none"), ("BATCH", ""), ("NOTIFY", "pos1"), ("with space", "kw1")]
+    steps = SESSION_STEPS
     out = Out(cls="session")
-    d, reg = loop_world(sv, True)
+    cfg = Config(version=sv)
+    d = SimpleJSONRPCDispatcher(config=cfg)  # a fresh dispatcher: sessions change the registrations
+    reg = Registry(d)
     t = LoopbackTransport(d)
     hist = History()
     proxy = jsonrpclib.ServerProxy("http://h/", transport=t, version=cv, history=hist)
@@ -182,6 +203,9 @@ def check_session(case):
         del reg.log[:]
         reg.ret = r
         try:
+            if name == "REREG":
+                reg.reregister(d, style)
+                continue
             if name == "BATCH":
                 mc = jsonrpclib.MultiCall(proxy)
                 mc.f(v)
@@ -280,11 +304,11 @@ def leg_batch(part, tier, shard, nshards):
 _SERVERS = {}
 
 
-def real_server(kind, family, sv):
-    key = (kind, family, sv)
+def real_server(kind, family, sv, jc=True):
+    key = (kind, family, sv, jc)
     if key in _SERVERS:
         return _SERVERS[key]
-    cfg = Config(version=sv)
+    cfg = Config(version=sv, use_jsonclass=jc)
     cls = SimpleJSONRPCServer if kind == "simple" else PooledJSONRPCServer
     tmp = None
     if family == "tcp":
@@ -313,6 +337,57 @@ def stop_servers():
         if tmp:
             shutil.rmtree(tmp, ignore_errors=True)
         del _SERVERS[key]
+
+
+JC_DATA = [{"__jsonclass__": ["decimal.Decimal", ["1.5"]]}, [{"k": {"__jsonclass__": ["no.such", []], "x": 1}}], {"__jsonclass__": 5}]
+
+
+def jcoff_cases(tier):
+    """Translation disabled on both sides: '__jsonclass__' members are ordinary data and must travel verbatim."""
+    for kind in ("simple", "pooled"):
+        for family in ("tcp", "unix"):
+            for ver in VERSIONS:
+                for i in range(len(JC_DATA)):
+                    for style in ("pos1", "kw1"):
+                        yield (kind, family, ver, style, i)
+    for ver in VERSIONS:
+        for i in range(len(JC_DATA)):
+            for style in ("pos1", "kw2"):
+                yield ("loopback", "-", ver, style, i)
+
+
+def check_jcoff(case):
+    kind, family, (cv, sv), style, i = case
+    v = JC_DATA[i]
+    out = Out(cls="translation-off/%s" % kind)
+    if kind == "loopback":
+        d, reg = loop_world(sv, False)
+        proxy = jsonrpclib.ServerProxy("http://h/", transport=LoopbackTransport(d), version=cv, config=Config(version=cv, use_jsonclass=False))
+    else:
+        srv, reg, url, th, tmp = real_server(kind, family, sv, False)
+        proxy = jsonrpclib.ServerProxy(url, version=cv, config=Config(version=cv, use_jsonclass=False))
+    args, kwargs = build_args(style, v, v)
+    del reg.log[:]
+    reg.ret = v
+    got, exc = None, None
+    try:
+        got = proxy.f(*args, **kwargs)
+    except Exception as ex:
+        exc = ex
+    finally:
+        try:
+            proxy("close")()
+        except Exception:
+            pass
+    judge_call(out, "translation-off-%s" % kind, reg, "f", args, kwargs, v, got, exc)
+    return out
+
+
+def leg_jcoff(part, tier, shard, nshards):
+    try:
+        drive(part, "translation-off", jcoff_cases(tier), shard, nshards, check_jcoff)
+    finally:
+        stop_servers()
 
 
 def net_cases(tier):
@@ -364,7 +439,7 @@ def leg_net(part, tier, shard, nshards):
         stop_servers()
 
 
-LEGS = {"loopback": leg_loop, "sessions": leg_session, "multicall": leg_batch, "kernel-sockets": leg_net}
+LEGS = {"loopback": leg_loop, "sessions": leg_session, "multicall": leg_batch, "kernel-sockets": leg_net, "translation-off": leg_jcoff}
 
 META = {
     "technique": "bounded-exhaustive enumeration of names, argument styles, JSON values, call forms and protocol versions through the real client and "
@@ -372,7 +447,8 @@ META = {
     "rule": "loopback: 9 method names (identifier, dotted registered name, instance attribute path, non-ASCII, with space, hyphen, underscore, keyword) x 5 "
     "argument styles x 23 leaf values x client/server versions {1.0,2.0}^2 x translation on/off x {plain, dotted chain}; plus every JSON value of depth <=1 "
     "(thorough <=2, capped at 60000) width <=2 as argument and return value; sessions: every sequence of 3 (thorough 4) steps over {4 calls, batch, notification, "
-    "keyword call} on one proxy with one History; multicall: every batch of <=3 jobs over 6 job kinds (calls and notifications) x "
+    "re-registration of a name} on one proxy with one History (the newest registration must be the one invoked); translation-off: payloads with "
+    "'__jsonclass__' members as plain data through loopback and real servers configured with use_jsonclass=False; multicall: every batch of <=3 jobs over 6 job kinds (calls and notifications) x "
     "values x server version; kernel-sockets: SimpleJSONRPCServer and PooledJSONRPCServer x TCP/Unix x versions x 29 values (leaves, nested, >1 KiB "
     "multi-byte); every case non-trivial",
     "bounds": {"quick": {"value_depth": 1, "batch_len": 3}, "thorough": {"value_depth": 2, "batch_len": 3}},
@@ -388,6 +464,11 @@ def replay(case):
         return check_batch(c).viols
     if case["leg"] == "sessions":
         return check_session(c).viols
+    if case["leg"] == "translation-off":
+        try:
+            return check_jcoff(c).viols
+        finally:
+            stop_servers()
     try:
         return check_net(c).viols
     finally:
